@@ -118,6 +118,9 @@ class TokTheory(ObjTheory):
         ex.st.assume(z3.Implies(z3.Not(th["live"]), z3.Not(th["pbf"])))
         ex.st.assume(z3.Implies(z3.Not(th["started"]), z3.And(th["cur"] == 0, z3.Not(th["pbf"]))))
         ex.st.assume(z3.Implies(th["live"], th["cur"] <= LEXFAIL))
+        for v in ex.args.values():
+            if isinstance(v, ObjV) and v.role == "cont":
+                self.cont_len(ex, v)
 
     def wf_stream(self, th):
         return z3.And(th["cur"] >= 0, th["cur"] <= N, z3.Implies(z3.Not(th["live"]), z3.Not(th["pbf"])),
@@ -152,8 +155,10 @@ class TokTheory(ObjTheory):
         if c.pure:
             return
         self.havoc_stream(ex)
-        for key in list(ex.st.th):
-            if key.endswith(".len"):
+        # only a container handed to the callee can be changed by it
+        for v in (ex.st.ghost.get("call_args") or {}).values():
+            if isinstance(v, ObjV) and v.role == "cont":
+                key = f"{v.info['oid']}.len"
                 ex.st.th[key] = fresh("len", I)
                 ex.st.assume(ex.st.th[key] >= 0)
 
@@ -329,6 +334,16 @@ class TokTheory(ObjTheory):
                 raise Untranslatable("keyword dict lookup")
             return Z("str", endkw(k))
         return super().getitem(ex, recv, idx)
+
+    def setitem(self, ex, recv, idx, v):
+        if isinstance(recv, ObjV) and recv.role == "cont":
+            # container[key] = value: C10's contract - appended when the key is new, otherwise the first
+            # occurrence is replaced and every later one dropped; only the length is tracked here
+            n = fresh("len_after_setitem", I)
+            ex.st.assume(z3.And(n >= 1, n <= self.cont_len(ex, recv) + 1))
+            ex.st.th[f"{recv.info['oid']}.len"] = n
+            return
+        return super().setitem(ex, recv, idx, v)
 
     def unpack(self, ex, v, n):
         if isinstance(v, ObjV) and v.role in ("val",) and n == 2:
